@@ -222,3 +222,45 @@ fn convert(accesses: crate::incarnation_db::IncarnationAccesses) -> Accesses {
         blocked_by_beneficiary: accesses.blocked_by_beneficiary,
     }
 }
+
+// ------------------------------------------------------------------------------------------------
+// Committed-state cache: readers racing the commit path
+// ------------------------------------------------------------------------------------------------
+
+/// Run cache-filling storage reads (one enrolled thread each, through the shared view that
+/// speculative workers use) concurrently with the ordered commit of `changes` (on the calling
+/// thread, enrolled as the commit role, through the commit half). Returns the values the readers
+/// saw, in the order of `reads`.
+pub fn cache_race<DB>(
+    state: &mut crate::ParallelState<DB>,
+    reads: &[(Address, U256)],
+    changes: Vec<EvmState>,
+) -> Vec<U256>
+where
+    DB: DatabaseRef + Send + Sync,
+    DB::Error: std::fmt::Debug,
+{
+    use revm::DatabaseCommit;
+    let (view, mut commit) = state.split_for_parallel();
+    std::thread::scope(|scope| {
+        let handles: Vec<_> = reads
+            .iter()
+            .map(|(address, slot)| {
+                let (address, slot) = (*address, *slot);
+                scope.spawn(move || {
+                    let _enrolled = crate::verif::rt::enroll(0);
+                    crate::verif::rt::pt2("cache_read_begin", crate::verif::rt::fnv(address.as_slice()), 0);
+                    view.storage_ref(address, slot).expect("backing store read")
+                })
+            })
+            .collect();
+        {
+            let _enrolled = crate::verif::rt::enroll(2);
+            for change in changes {
+                crate::verif::rt::pt("cache_commit_begin");
+                commit.commit(change);
+            }
+        }
+        handles.into_iter().map(|h| h.join().expect("reader")).collect()
+    })
+}
